@@ -317,7 +317,7 @@ M('C13', 'c13-fresh-env', [(RUN, "        env = os.environ.copy()\n", "        e
 M('C13', 'c13-exit-bool', [('main.py', "            exit(returncode)", "            exit(returncode != 0)")], 'C13.4')
 M('C13', 'c13-pipe-mode-own-manager', [('main.py', "            piped_input_main(output, connection_list)", "            piped_input_main(output, ConnectionManager())")], 'C13.1')
 M('C13', 'c13-file-mode-other-output', [('main.py', "file_input_main(args.load_path, output, connection_list, ui_controller, ui_controller, input_func)", "file_input_main(args.load_path, Output(False, True, stream.Std(sys.stdout), stream.Std(sys.stderr)), connection_list, ui_controller, ui_controller, input_func)")], 'C13.1')
-M('C13', 'c13-parse-after-join', [(RUN, "    with os.fdopen(readable, 'r') as spicket:\n        parse.into_sink(spicket, output, connection_id_sink)\n    thread.join(timeout=1)", "    thread.join(timeout=1)\n    with os.fdopen(readable, 'r') as spicket:\n        parse.into_sink(spicket, output, connection_id_sink)")], 'C13.4')
+M('C13', 'c13-parse-after-join', [(RUN, "    with os.fdopen(readable, 'r', errors='backslashreplace') as spicket:\n        parse.into_sink(spicket, output, connection_id_sink)\n    thread.join(timeout=1)", "    thread.join(timeout=1)\n    with os.fdopen(readable, 'r', errors='backslashreplace') as spicket:\n        parse.into_sink(spicket, output, connection_id_sink)")], 'C13.4')
 M('C13', 'c13-no-close-write-end', [(RUN, "        os.close(self.stderr_fd)\n", "")], 'C13.3')
 M('C13', 'c13-read-chunks', [(PARSE, "                line = input_file.readline()\n", "                line = input_file.readline(4096)\n")], 'C13.2')
 M('C13', 'c13-mode-unhandled', [('main.py', "        elif args.mode == Mode.PIPE:\n            if args.stop_matcher != matcher.never:\n                output.warn('Ignoring stop matcher when stdin is used for messages')\n            piped_input_main(output, connection_list)\n", "")], 'C13.1')
@@ -391,3 +391,11 @@ V('C18', 'c18v-catch-arithmeticerror', [(MAT, "            except (OverflowError
 V('C19', 'c19v-enumerate-positions', [(AF, "    for i in range(len(args)):\n        for command in commands:", "    for i, word in enumerate(args):\n        for command in commands:"), (AF, "                if args[i] == alias:", "                if word == alias:")])
 V('C03', 'c03v-alive-property-is-none', [(OBJ, "        self.alive = True\n", ""), (OBJ, "        self.destroy_time = time\n        self.alive = False", "        self.destroy_time = time\n\n    @property\n    def alive(self) -> bool:\n        return self.destroy_time is None")])
 M('C03', 'c03-alive-property-truthy', [(OBJ, "        self.alive = True\n", ""), (OBJ, "        self.destroy_time = time\n        self.alive = False", "        self.destroy_time = time\n\n    @property\n    def alive(self) -> bool:\n        return not self.destroy_time")], 'C03.1')
+
+# ---- parameter renames (canonical parameter names) -----------------------------------------------
+V('C06', 'c06v-param-renamed', [(CTL, "    def connection_got_new_message(self, connection: Connection, message: wl.Message) -> None:\n        '''Overrides method in Connection.Listener'''\n        self.all_messages.append(message)\n        if self.current_connection is None or connection == self.current_connection:\n            if self.display_matcher.matches(message):\n                self._show_message(message)\n            if self.stop_matcher.matches(message):\n                self.out.show(color(alert_color, '    Stopped at ') + str(message).strip())",
+  "    def connection_got_new_message(self, conn: Connection, msg: wl.Message) -> None:\n        '''Overrides method in Connection.Listener'''\n        self.all_messages.append(msg)\n        if self.current_connection is None or conn == self.current_connection:\n            if self.display_matcher.matches(msg):\n                self._show_message(msg)\n            if self.stop_matcher.matches(msg):\n                self.out.show(color(alert_color, '    Stopped at ') + str(msg).strip())")])
+V('C10', 'c10v-param-renamed', [(CTL, "    def connection_got_new_message(self, connection: Connection, message: wl.Message) -> None:\n        '''Overrides method in Connection.Listener'''\n        self.all_messages.append(message)\n        if self.current_connection is None or connection == self.current_connection:\n            if self.display_matcher.matches(message):\n                self._show_message(message)\n            if self.stop_matcher.matches(message):\n                self.out.show(color(alert_color, '    Stopped at ') + str(message).strip())",
+  "    def connection_got_new_message(self, conn: Connection, msg: wl.Message) -> None:\n        '''Overrides method in Connection.Listener'''\n        self.all_messages.append(msg)\n        if self.current_connection is None or conn == self.current_connection:\n            if self.display_matcher.matches(msg):\n                self._show_message(msg)\n            if self.stop_matcher.matches(msg):\n                self.out.show(color(alert_color, '    Stopped at ') + str(msg).strip())")])
+V('C02', 'c02v-param-renamed', [(CI, "    def create_object(self, time: float, parent: wl.ObjectBase, obj_id: int, type_name: str) -> wl.ObjectBase:\n        '''Overrides method in Connection'''\n        if obj_id <= 1:\n            raise RuntimeError('Invalid object ID ' + str(obj_id))\n        if obj_id in self.db:\n            last_obj = self.db[obj_id][-1]",
+  "    def create_object(self, time: float, parent: wl.ObjectBase, oid: int, type_name: str) -> wl.ObjectBase:\n        '''Overrides method in Connection'''\n        obj_id = oid\n        if obj_id <= 1:\n            raise RuntimeError('Invalid object ID ' + str(obj_id))\n        if obj_id in self.db:\n            last_obj = self.db[obj_id][-1]")])
